@@ -41,18 +41,34 @@ def enc_g(spec, smart):
         skip = "()"
     else:
         skip = ";".join(_chk(s) for s in spec["skip"])
-    items = []
+    items, tmpl, gen, seq, tp = [], [], [], [], []
     for sym, alts in spec["prods"]:
-        items.append(_chk(sym) + "=" + "|".join(
-            "~" if not a else ".".join(_chk(s) for s in a) for a in alts))
+        if isinstance(alts, dict):          # a template: its generated productions go to the model as data
+            exp = expand_template(sym, alts, terminal_names(spec))
+            tmpl.append(sym)
+            gen.extend(k for k, _ in exp[1:])
+            if alts["t"] == "seq":
+                seq.append(sym)
+            tp.append("%s~%s~%s" % (_chk(sym), alts["t"], ",".join("-" if a is None else _chk(str(a)) for a in alts["args"])))
+            entries = exp
+        else:
+            entries = [(sym, alts)]
+        for k, aa in entries:
+            items.append(_chk(k) + "=" + "|".join(
+                "~" if not a else ".".join(_chk(s) for s in a) for a in aa))
     prods = ";".join(items) or "-"
     start = "-" if spec["start"] is None else _chk(spec["start"])
-    return "g %d %s %s %s %s %s %s" % (1 if smart else 0, start, tok, syn, kw, skip, prods)
+    line = "g %d %s %s %s %s %s %s" % (1 if smart else 0, start, tok, syn, kw, skip, prods)
+    if tmpl:
+        line += " T=%s/%s/%s TP=%s" % (",".join(tmpl), ",".join(gen) or "-", ",".join(seq) or "-", ";".join(tp))
+    if spec.get("kinds"):
+        line += " K=" + ",".join("%s:%s" % kv for kv in sorted(spec["kinds"].items()))
+    return line
 
 
 def dec_g(line):
     f = line.split()
-    assert f[0] == "g" and len(f) == 8, line
+    assert f[0] == "g" and len(f) >= 8, line
     smart = f[1] == "1"
     spec = {"start": None if f[2] == "-" else f[2], "tok": [], "syn": {}, "kw": [], "skip": None, "prods": []}
     for it in f[3].split(";"):
@@ -76,19 +92,61 @@ def dec_g(line):
             sym, alts = it.split("=")
             spec["prods"].append([sym, [] if alts == "" else [
                 [] if a == "~" else a.split(".") for a in alts.split("|")]])
+    spec["tmpl"], spec["gen"], spec["seq"], spec["tdefs"], spec["kinds"] = [], [], [], {}, {}
+    for extra in f[8:]:
+        if extra.startswith("T="):
+            a, b, c = extra[2:].split("/")
+            spec["tmpl"], spec["gen"], spec["seq"] = [[] if x == "-" else x.split(",") for x in (a, b, c)]
+        elif extra.startswith("TP="):
+            for it in extra[3:].split(";"):
+                sym, kind, args = it.split("~")
+                spec["tdefs"][sym] = {"t": kind, "args": [None if x == "-" else x for x in args.split(",")]}
+        elif extra.startswith("K="):
+            spec["kinds"] = dict(kv.split(":") for kv in extra[2:].split(","))
     return spec, smart
+
+
+def make_template(tdef):
+    llp = _llp()
+    a = tdef["args"]
+    if tdef["t"] == "seq":
+        return llp.ProdSequence(*a)
+    if tdef["t"] == "list":       # open, item, delimiter, close, allow_final_delimiter, optional
+        kw = {}
+        if a[4] is not None:
+            kw["allow_final_delimiter"] = a[4] in ("1", 1, True)
+        if a[5] is not None:
+            kw["optional"] = a[5] in ("1", 1, True)
+        return llp.ListProds(a[0], a[1], a[2], a[3], **kw)
+    if tdef["t"] == "map":        # open, key, assign, value, delimiter, close, optional, allow_final_delimiter
+        kw = {}
+        if a[6] is not None:
+            kw["optional"] = a[6] in ("1", 1, True)
+        if a[7] is not None:
+            kw["allow_final_delimiter"] = a[7] in ("1", 1, True)
+        return llp.MapProds(a[0], a[1], a[2], a[3], a[4], a[5], **kw)
+    raise ValueError(tdef["t"])
+
+
+def expand_template(sym, tdef, terminals):
+    """the productions the template generates for `sym` (the repo's own template classes; C05 is about them)"""
+    t = make_template(tdef)
+    t.complete_init(sym, set(terminals), None)
+    return [(k, [list(p) if p is not None else [] for p in prods]) for k, prods in t.gen_productions()]
 
 
 def tokenizer_str(spec):
     return "|".join("(?P<%s>%s)" % (n, rx) for n, rx in spec["tok"])
 
 
-def raw_lex(spec, text):
-    """the lexemes `re` finds (group name, value), before naming and skipping; None if the text does not lex"""
+def raw_lex(spec, text, as_lines=False):
+    """the lexemes `re` finds (group name, value), before naming and skipping; None if the text does not lex.
+    A str is cut at '\n' only and every line is right-stripped; a list of lines is taken as it is."""
     m = re.compile(tokenizer_str(spec), re.VERBOSE)
     out = []
     for line in text.split("\n"):
-        line = line.rstrip()
+        if not as_lines:
+            line = line.rstrip()
         col = 0
         while col < len(line):
             mm = m.match(line, col)
@@ -99,11 +157,11 @@ def raw_lex(spec, text):
     return out
 
 
-def enc_p(spec, text, start=None):
-    """`p` = parse(text); `ps X` = parse(text, start_symbol_name=X)"""
-    raw = raw_lex(spec, text)
+def enc_p(spec, text, start=None, as_lines=False):
+    """`p` = parse(text); `pl` = parse(text.split('\\n')) (list of lines); `ps X` = parse(text, start_symbol_name=X)"""
+    raw = raw_lex(spec, text, as_lines)
     assert raw is not None, "generator produced a text that does not lex: %r" % text
-    head = "p" if start is None else "ps %s" % _chk(start)
+    head = ("pl" if as_lines else "p") if start is None else "ps %s" % _chk(start)
     return "%s %s %s" % (head, enc_str(text), ";".join("%s~%s" % (n, enc_str(v)) for n, v in raw) or "-")
 
 
@@ -176,15 +234,48 @@ def _llp():
     return llparser
 
 
+ARG_KINDS = ("set", "frozenset", "list", "tuple", "keys", "gen", "iter", "map")
+
+
+def as_kind(names, kind):
+    """a collection-valued constructor argument in one of the forms a caller may use"""
+    if names is None:
+        return None
+    names = list(names)
+    if kind == "set":
+        return set(names)
+    if kind == "frozenset":
+        return frozenset(names)
+    if kind == "list":
+        return names
+    if kind == "tuple":
+        return tuple(names)
+    if kind == "keys":
+        return dict.fromkeys(names).keys()
+    if kind == "gen":
+        return (n for n in names)
+    if kind == "iter":
+        return iter(names)
+    if kind == "map":
+        return map(str, names)
+    raise ValueError(kind)
+
+
 def build(spec, smart, trace_budget=None):
     """-> (parser | None, reply)"""
     llp = _llp()
     prods = {}
+    gen = set(spec.get("gen", ()))
     for sym, alts in spec["prods"]:
-        prods[sym] = [tuple(a) for a in alts]
+        if sym in gen:
+            continue                      # created by a template
+        if sym in spec.get("tdefs", {}):
+            prods[sym] = make_template(spec["tdefs"][sym])
+        else:
+            prods[sym] = [tuple(a) for a in alts]
     kw = {(t, v): t2 for t, v, t2 in spec["kw"]}
     args = dict(productions=prods, synonyms=dict(spec["syn"]) or None, keywords=kw or None,
-                skip_tokens=None if spec["skip"] is None else set(spec["skip"]),
+                skip_tokens=as_kind(spec["skip"], spec.get("kinds", {}).get("skip", "set")),
                 smart_factorization=smart)
     if spec["start"] is not None:
         args["start_symbol_name"] = spec["start"]
@@ -206,22 +297,44 @@ def build(spec, smart, trace_budget=None):
     return p, "ok amb=%d" % (1 if p.is_ambiguous() else 0)
 
 
-def show_tree(e):
-    """TElement -> s-expression, through name / value / is_leaf() / signature()"""
-    sig = e.signature()
-    if sig.name != e.name:
-        raise AssertionError("signature().name differs from name")
-    if e.value is None:
-        if sig.child_names != ():
-            raise AssertionError("childless element with child names")
-        return "(%s)" % e.name
-    if e.is_leaf():
-        if not isinstance(e.value, str):
-            raise AssertionError("leaf value is %s" % type(e.value).__name__)
-        return "%s:%s" % (e.name, enc_str(e.value))
-    if tuple(c.name for c in e.value) != tuple(sig.child_names):
-        raise AssertionError("signature() differs from the children")
-    return "(" + " ".join([e.name] + [show_tree(c) for c in e.value]) + ")"
+def show_tree(root):
+    """TElement -> s-expression, through name / value / is_leaf() / signature(); iterative (deep trees);
+    a flattened `ProdSequence` element (leaf whose value is a list of elements) is shown as [S item item ...]"""
+    out, todo = [], [root]
+    while todo:
+        e = todo.pop()
+        if isinstance(e, str):
+            out.append(e)
+            continue
+        sig = e.signature()
+        if sig.name != e.name:
+            raise AssertionError("signature().name differs from name")
+        if e.value is None:
+            if sig.child_names != ():
+                raise AssertionError("childless element with child names")
+            out.append("(%s)" % e.name)
+        elif e.is_leaf():
+            if isinstance(e.value, list):
+                if sig.child_names != ():
+                    raise AssertionError("sequence element with child names")
+                out.append("[" + e.name)
+                todo.append("]")
+                for c in reversed(e.value):
+                    todo.append(c)
+                    todo.append(" ")
+                continue
+            if not isinstance(e.value, str):
+                raise AssertionError("leaf value is %s" % type(e.value).__name__)
+            out.append("%s:%s" % (e.name, enc_str(e.value)))
+        else:
+            if tuple(c.name for c in e.value) != tuple(sig.child_names):
+                raise AssertionError("signature() differs from the children")
+            out.append("(" + e.name)
+            todo.append(")")
+            for c in reversed(e.value):
+                todo.append(c)
+                todo.append(" ")
+    return "".join(out)
 
 
 def stack_bound(parser, text):
@@ -230,16 +343,17 @@ def stack_bound(parser, text):
     return (len(text) + 2) * (len(parser.prods_map) + len(parser.terminals) + 3)
 
 
-def parse_reply(parser, text, trace_budget=None, start=None):
+def parse_reply(parser, text, trace_budget=None, start=None, as_lines=False):
     old = signal.signal(signal.SIGALRM, _alarm)
     signal.setitimer(signal.ITIMER_REAL, 120.0 if trace_budget else 20.0)
     try:
         kw = {} if start is None else {"start_symbol_name": start}
+        arg = text.split("\n") if as_lines else text
         if trace_budget:
             with LineBudget(trace_budget, stack_bound(parser, text)):
-                t = parser.parse(text, do_cleanup=False, **kw)
+                t = parser.parse(arg, do_cleanup=False, **kw)
         else:
-            t = parser.parse(text, do_cleanup=False, **kw)
+            t = parser.parse(arg, do_cleanup=False, **kw)
         signal.setitimer(signal.ITIMER_REAL, 0)
         return "tree " + show_tree(t)
     except StackBoundExceeded:
@@ -282,31 +396,40 @@ def diag_reply(parser, op):
 
 
 def impl(case, trace_budget=None, parse_budget=None):
-    """trace_budget: line-event budget of the constructor; parse_budget: of one parse (with the stack bound)"""
-    out, parser, overrun = [], None, False
+    """trace_budget: line-event budget of the constructor; parse_budget: of one parse (with the stack bound).
+    Every `g` creates a further parser object of the same process; `use k` goes back to the k-th one."""
+    out, slots, cur = [], [], None          # slots: [parser, overrun]
     for line in case["lines"]:
         op = line.split()[0]
         if op == "g":
             spec, smart = dec_g(line)
             parser, rep = build(spec, smart, trace_budget)
-            overrun = False
+            if parser is not None:
+                slots.append([parser, False])
+                cur = len(slots) - 1
+            else:
+                cur = None
             out.append(rep)
-        elif op in ("p", "ps"):
-            if parser is None:
+        elif op == "use":
+            k = int(line.split()[1])
+            cur = k if k < len(slots) else None
+            out.append("ok")
+        elif op in ("p", "pl", "ps"):
+            if cur is None:
                 out.append("nogrammar")
-            elif overrun:           # one overrun per parser is enough evidence; do not burn the budget again
+            elif slots[cur][1]:           # one overrun per parser is enough evidence; do not burn the budget again
                 out.append("skipped-after-overrun")
             else:
-                rep = parse_reply(parser, dec_p(line), parse_budget or trace_budget,
-                                  start=line.split()[1] if op == "ps" else None)
-                overrun = rep in ("err BudgetExceeded", "err StackBoundExceeded")
+                rep = parse_reply(slots[cur][0], dec_p(line), parse_budget or trace_budget,
+                                  start=line.split()[1] if op == "ps" else None, as_lines=(op == "pl"))
+                slots[cur][1] = rep in ("err BudgetExceeded", "err StackBoundExceeded")
                 out.append(rep)
         elif op == "amb":       # is_ambiguous() again, after the parses (the table must not have changed)
-            out.append("nogrammar" if parser is None else "amb=%d" % (1 if parser.is_ambiguous() else 0))
+            out.append("nogrammar" if cur is None else "amb=%d" % (1 if slots[cur][0].is_ambiguous() else 0))
         elif op in DIAG_OPS:
-            out.append("nogrammar" if parser is None else diag_reply(parser, op))
+            out.append("nogrammar" if cur is None else diag_reply(slots[cur][0], op))
         elif op == "reset":
-            parser = None
+            slots, cur = [], None
             out.append("ok")
         else:
             out.append("bad-op")
@@ -315,9 +438,34 @@ def impl(case, trace_budget=None, parse_budget=None):
 
 # ------------------------------------------------------------------ reference implementations (oracles)
 
+def expanded_prods(spec):
+    """[(symbol, alternatives)] with the templates replaced by the productions they generate, in order"""
+    out = []
+    for sym, alts in spec["prods"]:
+        if isinstance(alts, dict):
+            out.extend(expand_template(sym, alts, terminal_names(spec)))
+        else:
+            out.append((sym, alts))
+    return out
+
+
 def user_grammar(spec):
-    """{symbol: [tuple, ...]} of the user's productions"""
-    return {sym: [tuple(a) for a in alts] for sym, alts in spec["prods"]}
+    """{symbol: [tuple, ...]} of the user's productions (templates expanded)"""
+    return {sym: [tuple(a) for a in alts] for sym, alts in expanded_prods(spec)}
+
+
+def template_info(spec):
+    """(template keys, generated symbols, ProdSequence symbols) of a spec (generated or decoded)"""
+    if "tmpl" in spec and not any(isinstance(a, dict) for _, a in spec["prods"]):
+        return set(spec["tmpl"]), set(spec["gen"]), set(spec["seq"])
+    tm, gen, seq = set(), set(), set()
+    for sym, alts in spec["prods"]:
+        if isinstance(alts, dict):
+            tm.add(sym)
+            gen.update(k for k, _ in expand_template(sym, alts, terminal_names(spec))[1:])
+            if alts["t"] == "seq":
+                seq.add(sym)
+    return tm, gen, seq
 
 
 def terminal_names(spec):
@@ -332,10 +480,13 @@ def clean(spec):
     """a grammar in the ordinary sense: known symbols, disjoint alphabets, distinct alternatives"""
     g = user_grammar(spec)
     terms = terminal_names(spec)
-    if len(g) != len(spec["prods"]) or start_of(spec) not in g:
+    if len(g) != len(expanded_prods(spec)) or start_of(spec) not in g:
         return False
+    tmpl_keys, gen, _ = template_info(spec)
     for sym, alts in g.items():
-        if "__" in sym or sym in terms or sym in ("$END$", "$START$") or len(set(alts)) != len(alts):
+        if ("__" in sym and sym not in gen) or sym in terms or sym in ("$END$", "$START$") or len(set(alts)) != len(alts):
+            return False
+        if sym not in gen and sym not in tmpl_keys and any("__" in x for a in alts for x in a):
             return False
         for a in alts:
             for s in a:
@@ -415,69 +566,85 @@ def derives(g, start, w):
     return sym(start, 0, len(w))
 
 
-def read_sexp(s):
-    """'(E (A a:97) b:98)' -> ('E', [('A', [('a','a')]), ('b','b')]); leaf = (name, str), node = (name, list)"""
-    toks = s.replace("(", " ( ").replace(")", " ) ").split()
-    pos = 0
+HELPER_RE = re.compile(r"__S\d{2,}$")
 
-    def rd():
-        nonlocal pos
+
+def read_sexp(s):
+    """'(E (A a:97) [S b:98])' -> ('E', [('A', [('a','a')]), ('S', ('seq', [('b','b')]))]);
+    leaf = (name, str), node = (name, list), flattened sequence = (name, ('seq', list)); iterative"""
+    toks = s.replace("(", " ( ").replace(")", " ) ").replace("[", " [ ").replace("]", " ] ").split()
+    stack, pos, root = [], 0, None
+    while pos < len(toks):
         t = toks[pos]
         pos += 1
-        if t == "(":
-            name = toks[pos]
+        if t in ("(", "["):
+            stack.append((toks[pos], [], t))
             pos += 1
-            kids = []
-            while toks[pos] != ")":
-                kids.append(rd())
-            pos += 1
-            return (name, kids)
-        name, v = t.split(":")
-        return (name, dec_str(v))
+            continue
+        if t in (")", "]"):
+            name, kids, br = stack.pop()
+            node = (name, kids) if br == "(" else (name, ("seq", kids))
+        else:
+            name, v = t.split(":")
+            node = (name, dec_str(v))
+        if stack:
+            stack[-1][1].append(node)
+        else:
+            root = node
+    assert not stack and root is not None
+    return root
 
-    r = rd()
-    assert pos == len(toks)
-    return r
 
-
-def check_tree(g, start, tree, expected):
-    """C01's statement on one returned tree; returns an error text or None"""
+def check_tree(g, start, tree, expected, seqs=()):
+    """C01's statement on one returned tree; returns an error text or None (iterative)"""
     leaves = []
-
-    def rec(e):
-        name, v = e
-        if "__" in name:
+    if tree[0] != start:
+        return "root: root is %r, start symbol is %r" % (tree[0], start)
+    todo = [tree]
+    while todo:
+        name, v = todo.pop()
+        if HELPER_RE.search(name):
             return "helper-symbol: node %r in the returned tree" % name
         if isinstance(v, str):
             if name in g:
                 return "leaf-nonterminal: leaf named %r" % name
             leaves.append((name, v))
-            return None
+            continue
         if name not in g:
             return "inner-terminal: inner node named %r" % name
-        sig = tuple(c[0] for c in v)
-        if sig not in g[name]:
-            return "bad-production: %s -> %s is not a production of the grammar" % (name, list(sig))
-        for c in v:
-            r = rec(c)
-            if r:
-                return r
-        return None
-
-    if tree[0] != start:
-        return "root: root is %r, start symbol is %r" % (tree[0], start)
-    r = rec(tree)
-    if r:
-        return r
+        if isinstance(v, tuple):           # flattened ProdSequence: every item is one of its members
+            if name not in seqs:
+                return "flattened: node %r is shown as a sequence but is no ProdSequence symbol" % name
+            members = set(a[0] for a in g.get(name + "__ELEMENT", []) if a)
+            for c in v[1]:
+                if c[0] not in members:
+                    return "bad-production: %r is no member of the sequence %s" % (c[0], name)
+            kids = v[1]
+        else:
+            if name in seqs:
+                return "not-flattened: ProdSequence symbol %r returned as an ordinary node" % name
+            sig = tuple(c[0] for c in v)
+            if sig not in g[name]:
+                return "bad-production: %s -> %s is not a production of the grammar" % (name, list(sig))
+            kids = v
+        todo.extend(reversed(kids))
     if leaves != list(expected):
-        return "leaves: leaves %r, tokens %r" % (leaves, list(expected))
+        return "leaves: leaves %s, tokens %s" % (_short(leaves), _short(list(expected)))
     return None
+
+
+def _short(x):
+    r = repr(x)
+    return r if len(r) < 300 else r[:140] + " ... " + r[-140:]
 
 
 def expected_tokens(case, text):
     """the non-skipped tokens of a generated text, from the generator's character table (not the tokenizer)"""
+    if text in case.get("expect", {}):
+        return [tuple(x) for x in case["expect"][text]]
     lm = case["lexmap"]
-    return [(lm[ch], ch) for ch in text if ch in lm]
+    skip = set(case.get("skipnames", ()))
+    return [(lm[ch], ch) for ch in text if ch in lm and lm[ch] not in skip]
 
 
 def first_follow(g, start):
@@ -560,6 +727,12 @@ VARIANTS = {
                   T=["a", "c", "SPACE"], lex={"a": "a", "c": "c", "_": "SPACE"}, sep="", noise="b"),
     "comment": dict(tok=[["SPACE", r"\s+"], ["COMMENT", r"\#"], ["a", "a"], ["b", "b"], ["c", "c"]], syn={}, kw=[],
                     skip=None, T=["a", "b", "c"], lex={"a": "a", "b": "b", "c": "c"}, sep=" ", noise="#"),
+    "skipiter": dict(tok=[["SPACE", "_"], ["a", "a"], ["b", "b"], ["c", "c"]], syn={}, kw=[], skip=["SPACE", "b"],
+                     T=["a", "b", "c"], lex={"a": "a", "b": "b", "c": "c", "_": "SPACE"}, sep="", noise="_"),
+    "free": dict(tok=[["SPACE", r"[\ \t]+"], ["a", "a"], ["b", "b"], ["w", r"[^ab\ \t\n]+"]], syn={}, kw=[], skip=None,
+                 T=["a", "b", "w"], lex={"a": "a", "b": "b"}, sep=" ", noise="",
+                 free=["x\x0cy", "q\u2028r", "m\x85n", "u\rv", "\x1dz", "k\x0bk", "\x1cj", "p\u2029e", "\x1em", "cd",
+                       "c\x0c\x0cd", "\u2028g"]),
     "noskip": dict(tok=[["SPACE", r"\s+"], ["a", "a"], ["b", "b"], ["c", "c"]], syn={}, kw=[], skip=[],
                    T=["a", "b", "c"], lex={"a": "a", "b": "b", "c": "c"}, sep="", noise=""),
 }
@@ -891,7 +1064,13 @@ def render(rng, var, w):
     inv = {}
     for ch, name in var["lex"].items():
         inv.setdefault(name, []).append(ch)
+    if "free" in var:
+        inv["w"] = var["free"]
     parts = [rng.choice(inv[t]) for t in w]
+    if "free" in var:          # free-text lexemes: remember the intended tokens, the text is not self-describing
+        text = " ".join(parts) if rng.random() < 0.8 else " \n".join(parts)
+        render.expect[text] = [[t, p_] for t, p_ in zip(w, parts)]
+        return text
     if var["sep"] == "":
         if not var["noise"]:
             return "".join(parts)
@@ -915,29 +1094,123 @@ def render(rng, var, w):
     return out
 
 
+render.expect = {}
+
+
+def skip_names(spec):
+    if spec["skip"] is None:
+        return [t for t in ("SPACE", "COMMENT") if t in terminal_names(spec)]
+    return list(spec["skip"])
+
+
+def _finish_case(lines, spec, var_name, texts, meta, lexmap):
+    m = dict(meta)
+    m["variant"] = var_name
+    case = {"lines": lines, "meta": m, "lexmap": dict(VARIANTS[var_name]["lex"] if lexmap is None else lexmap),
+            "skipnames": skip_names(spec)}
+    exp = {t: render.expect[t] for t in texts if t in render.expect} if "free" in VARIANTS.get(var_name, {}) else {}
+    if exp:
+        case["expect"] = exp
+    return case
+
+
 def make_case(spec, var_name, words, texts, meta, diags=("prods", "suffix", "table", "nullables", "first", "follow"),
-              lexmap=None, seqs=()):
-    """per smart value: construct, diagnostics, the parses, then the call sequences `seqs` = [(X, text), ...]:
-    parse(text, start_symbol_name=X) followed by a plain parse(text) on the same parser object, then
-    is_ambiguous() once more"""
+              lexmap=None, seqs=(), line_texts=()):
+    """per smart value: construct, diagnostics, the parses (`line_texts`: given as a list of lines), then the call
+    sequences `seqs` = [(X, text), ...]: parse(text, start_symbol_name=X) followed by a plain parse(text) on the same
+    parser object, then is_ambiguous() once more"""
     lines = []
     for smart in (True, False):
         lines.append(enc_g(spec, smart))
         lines.extend(diags)
         for t in texts:
             lines.append(enc_p(spec, t))
+        for t in line_texts:
+            lines.append(enc_p(spec, t, as_lines=True))
         for x, t in seqs:
             lines.append(enc_p(spec, t, start=x))
             lines.append(enc_p(spec, t))
         lines.append("amb")
+    return _finish_case(lines, spec, var_name, list(texts) + list(line_texts) + [t for _, t in seqs], meta, lexmap)
+
+
+def make_multi_case(specs, var_name, texts_per_spec, meta):
+    """2-3 parser objects alive in one process: construct and use A, construct and use B (C), then go back to each of
+    them (`use k`); every parser is judged on its own"""
+    lines, all_texts = [], []
+    for spec, texts in zip(specs, texts_per_spec):
+        lines.append(enc_g(spec, True))
+        for t in texts[:len(texts) // 2 + 1]:
+            lines.append(enc_p(spec, t))
+        all_texts.extend(texts)
+    for k, (spec, texts) in enumerate(zip(specs, texts_per_spec)):
+        lines.append("use %d" % k)
+        for t in texts:
+            lines.append(enc_p(spec, t))
+        lines.append("amb")
     m = dict(meta)
-    m["variant"] = var_name
-    return {"lines": lines, "meta": m, "lexmap": dict(VARIANTS[var_name]["lex"] if lexmap is None else lexmap)}
+    m["parsers"] = len(specs)
+    return _finish_case(lines, specs[0], var_name, all_texts, m, None)
 
 
-def gen_spec(rng, malformed_share=0.05, hidden_share=0.04, ll1_share=0.2, dfs_share=0.03, chain_share=0.06):
+def gen_templates(rng, T, nts):
+    """a grammar whose first keys are templates: ProdSequence (members: terminals and non-terminals, some nullable),
+    ListProds with a delimiter, MapProds; the other symbols are small plain ones, some nullable"""
+    if len(nts) < 3:
+        return gen_nonleftrec(rng, T, nts)
+    start, rest = nts[0], list(nts[1:])
+    rng.shuffle(rest)
+    n_t = rng.randint(1, min(2, len(rest) - 1))
+    tkeys, plain = rest[:n_t], rest[n_t:]
+    nullable = set(p_ for p_ in plain if rng.random() < 0.4)
+    g = []
+    for p_ in plain:
+        alts = [[rng.choice(T)] + ([rng.choice(T)] if rng.random() < 0.3 else [])]
+        if rng.random() < 0.3:
+            alts.append([rng.choice(T), rng.choice(plain)])
+        if p_ in nullable:
+            alts.insert(rng.randint(0, len(alts)), [])
+        g.append([p_, _dedupe(alts)])
+    tdefs = []
+    for k in tkeys:
+        kind = rng.choice(["seq", "seq", "list", "map"])
+        if kind == "seq":
+            members = rng.sample(T + plain, rng.randint(1, min(3, len(T + plain))))
+            tdefs.append([k, {"t": "seq", "args": members}])
+        elif kind == "list":
+            br = rng.random() < 0.6
+            delim = rng.choice(T)
+            tdefs.append([k, {"t": "list", "args": [rng.choice(T) if br else None, rng.choice(plain + T), delim,
+                                                      rng.choice(T) if br else None,
+                                                      rng.choice([None, 0, 1]) if br else None,
+                                                      rng.choice([None, 0, 1]) if br else None]}])
+        else:
+            tdefs.append([k, {"t": "map", "args": [rng.choice(T), rng.choice(plain + T), rng.choice(T), rng.choice(plain + T),
+                                                     rng.choice(T), rng.choice(T), rng.choice([None, 0, 1]),
+                                                     rng.choice([None, 0, 1])]}])
+    top = [[rng.choice(tkeys)] + ([rng.choice(T)] if rng.random() < 0.7 else [])]
+    for _ in range(rng.randint(0, 2)):
+        top.append([rng.choice(T)] + [rng.choice(tkeys + plain + T) for _ in range(rng.randint(0, 2))])
+    out = [[start, _dedupe(top)]] + tdefs + g
+    if rng.random() < 0.4:
+        rng.shuffle(out)
+    return out
+
+
+def plainify(spec):
+    """the same grammar written without templates: the generated productions become ordinary ones (the `__` names
+    are renamed), so a template key of one parser is an ordinary non-terminal of compatible shape in another"""
+    ren = lambda x: x.replace("__", "x")
+    s2 = dict(spec)
+    s2["prods"] = [[ren(k), [[ren(x) for x in a] for a in alts]] for k, alts in expanded_prods(spec)]
+    return s2
+
+
+def gen_spec(rng, malformed_share=0.05, hidden_share=0.04, ll1_share=0.2, dfs_share=0.03, chain_share=0.06,
+             tmpl_share=0.05):
     """-> (spec, variant name, meta)"""
-    var_name = rng.choice(["plain"] * 4 + ["syn", "kw", "synkw", "noskip", "swap", "spaceterm", "skipb", "comment"])
+    var_name = rng.choice(["plain"] * 4 + ["syn", "kw", "synkw", "noskip", "swap", "spaceterm", "skipb", "comment",
+                           "skipiter", "free"])
     var = VARIANTS[var_name]
     T = list(var["T"])
     pool = list(rng.choice(NT_POOLS))
@@ -959,6 +1232,10 @@ def gen_spec(rng, malformed_share=0.05, hidden_share=0.04, ll1_share=0.2, dfs_sh
         if len(nts) < 4:
             nts = pool[:rng.choice([4, 5, 5, 6])]
         g, gen = gen_firstchain(rng, T, nts), "firstchain"
+    elif r < malformed_share + hidden_share + dfs_share + chain_share + tmpl_share:
+        if len(nts) < 3:
+            nts = pool[:rng.choice([3, 4, 5])]
+        g, gen = gen_templates(rng, T, nts), "templates"
     elif r > 1.0 - ll1_share:
         g, gen = gen_ll1ish(rng, T, nts), "ll1ish"
     else:
@@ -972,11 +1249,26 @@ def gen_spec(rng, malformed_share=0.05, hidden_share=0.04, ll1_share=0.2, dfs_sh
     start = nts[0]
     if start == "E" and rng.random() < 0.5:
         start = None                 # start_symbol_name not passed: the constructor's default 'E'
-    if rng.random() < 0.2 and gen not in ("malformed", "firstchain"):
+    if rng.random() < 0.2 and gen not in ("malformed", "firstchain", "templates"):
         rng.shuffle(g)               # dict order (sort_n, prods_map order) independent of the start symbol
+    emptykey = False
+    if gen != "malformed" and rng.random() < 0.08:
+        # a key with an empty list of alternatives (legal for the constructor), unreferenced or referenced
+        g.insert(rng.randint(0, len(g)), ["Y9", []])
+        if rng.random() < 0.5:
+            tgt = rng.choice([e for e in g if isinstance(e[1], list) and e[0] != "Y9"] or [None])
+            if tgt is not None:
+                tgt[1].append([rng.choice(T), "Y9"])
+        emptykey = True
     spec = {"tok": [list(x) for x in var["tok"]], "syn": dict(var["syn"]), "kw": [list(x) for x in var["kw"]],
             "skip": None if var["skip"] is None else list(var["skip"]), "start": start, "prods": g}
+    if spec["skip"] is not None:
+        spec["kinds"] = {"skip": rng.choice(ARG_KINDS)}
     meta = {"gen": gen, "nts": len(nts), "start": "default" if start is None else "explicit"}
+    if emptykey:
+        meta["emptykey"] = 1
+    if spec.get("kinds"):
+        meta["skipkind"] = spec["kinds"]["skip"]
     if kind == "bad-skip":           # skip_tokens names a token the tokenizer does not know: GrammarError
         spec["skip"] = (spec["skip"] or ["SPACE"]) + ["NOTOKEN"]
     elif kind == "dunder-terminal":  # a reserved name among the terminals: AssertionError
@@ -989,9 +1281,9 @@ def gen_spec(rng, malformed_share=0.05, hidden_share=0.04, ll1_share=0.2, dfs_sh
 
 def gen_ll_cases(rng, n_grammars, maxlen, extra_long=0, rec_maxlen=2, malformed_share=0.05, sentences=25,
                  hidden_share=0.04, diags=("prods", "suffix", "table", "nullables", "first", "follow"), ll1_share=0.2,
-                 sent_maxlen=7, dfs_share=0.03, chain_share=0.06):
+                 sent_maxlen=7, dfs_share=0.03, chain_share=0.06, tmpl_share=0.05, multi_share=0.5):
     for _ in range(n_grammars):
-        spec, var_name, meta = gen_spec(rng, malformed_share, hidden_share, ll1_share, dfs_share, chain_share)
+        spec, var_name, meta = gen_spec(rng, malformed_share, hidden_share, ll1_share, dfs_share, chain_share, tmpl_share)
         var = VARIANTS[var_name]
         ok = clean(spec)
         rec = ok and left_rec(user_grammar(spec))
@@ -1005,6 +1297,22 @@ def gen_ll_cases(rng, n_grammars, maxlen, extra_long=0, rec_maxlen=2, malformed_
             for _ in range(extra_long):
                 words.append([rng.choice(var["T"]) for _ in range(rng.randint(maxlen + 1, maxlen + 2))])
         texts = [render(rng, var, w) for w in words]
+        if meta["gen"] == "templates" and ok and not rec and rng.random() < multi_share:
+            # several parser objects in one process: the template grammar, the same grammar written without templates
+            # (its template keys are ordinary symbols there), sometimes an unrelated grammar over the same names
+            specs = [spec, plainify(spec)]
+            if rng.random() < 0.4:
+                s3, _, _ = gen_spec(rng, 0.0, 0.0, 0.2, 0.0, 0.0, 0.0)
+                s3 = dict(spec, prods=s3["prods"], start=s3["start"])
+                if clean(s3) and not left_rec(user_grammar(s3)):
+                    specs.append(s3)
+            rng.shuffle(specs)
+            few = texts[:13] + texts[40:][:25]
+            yield make_multi_case(specs, var_name, [few] * len(specs), meta)
+            continue
+        line_texts = []
+        if ok and not rec and (var_name == "free" or rng.random() < 0.15):
+            line_texts = [t for t in texts if rng.random() < 0.2][:30]
         seqs = []
         if ok and not rec:
             ug = user_grammar(spec)
@@ -1018,7 +1326,39 @@ def gen_ll_cases(rng, n_grammars, maxlen, extra_long=0, rec_maxlen=2, malformed_
                 seqs.append(("Nokey", render(rng, var, rng.choice(words))))
             if seqs:
                 meta["seq"] = len(seqs)
-        yield make_case(spec, var_name, words, texts, meta, diags=diags, seqs=seqs)
+        yield make_case(spec, var_name, words, texts, meta, diags=diags, seqs=seqs, line_texts=line_texts)
+
+
+LONG_SHAPES = [
+    # (productions, start, sentence builder n -> token names, non-sentence builder)
+    ([["E", [["L", "c"]]], ["L", [["a", "L"], []]]], "E", lambda n: ["a"] * n + ["c"], lambda n: ["a"] * n + ["c", "c"]),
+    ([["E", [["L", "c"]]], ["L", [["I", "L"], []]], ["I", [["a"], ["b"]]]], "E",
+     lambda n: ["a", "b"] * (n // 2) + ["c"], lambda n: ["a", "b"] * (n // 2) + ["c", "a"]),
+    ([["E", [["a", "T9"]]], ["T9", [["b", "a", "T9"], ["c"]]]], "E",
+     lambda n: ["a"] + ["b", "a"] * (n // 2) + ["c"], lambda n: ["a"] + ["b", "a"] * (n // 2) + ["c", "b"]),
+    ([["E", [["S9", "c"]]], ["S9", {"t": "seq", "args": ["a", "B"]}], ["B", [["b"]]]], "E",
+     lambda n: ["a", "b"] * (n // 2) + ["c"], lambda n: ["a", "b"] * (n // 2) + ["c", "c"]),
+    ([["E", [["a", "E", "b"], ["c"]]]], "E", lambda n: ["a"] * (n // 2) + ["c"] + ["b"] * (n // 2),
+     lambda n: ["a"] * (n // 2) + ["c"] + ["b"] * (n // 2) + ["b"]),
+]
+
+
+def gen_long_cases(rng, sizes=(150, 500, 2000), shapes=None):
+    """right-recursive LL(1) grammars (the shape lists and sequences have) on long inputs: a sentence and a
+    non-sentence whose already matched part holds a subtree `n` levels deep; membership is known by construction"""
+    var = VARIANTS["plain"]
+    for prods, start, yes, no in (shapes or LONG_SHAPES):
+        spec = {"tok": [list(x) for x in var["tok"]], "syn": {}, "kw": [], "skip": None, "start": start,
+                "prods": [[k, (dict(a) if isinstance(a, dict) else [list(x) for x in a])] for k, a in prods]}
+        texts, member = [], {}
+        for n in sizes:
+            for w, isin in ((yes(n), True), (no(n), False), (yes(n)[:-1], False)):
+                t = " ".join(w)
+                texts.append(t)
+                member[t] = isin
+        c = make_case(spec, "plain", [], texts, {"gen": "long", "ref": "ok", "nts": len(prods), "start": "explicit"}, diags=())
+        c["member"] = member
+        yield c
 
 
 def tiny_grammars(rng, max_nt=2, max_alts=3, max_len=3, terminals=("a", "b"), limit=None, inputs_len=5):
@@ -1112,6 +1452,80 @@ def shrink(case):
             yield c
 
 
+# ------------------------------------------------------------------ walking a case (several parser objects)
+
+def walk(case, replies):
+    """yields (op, line, reply, ctx): ctx = the context of the parser object the request goes to (None when there is
+    none); a `g` request yields the context it creates (ctx["ok"] False when the constructor failed)"""
+    slots, cur = [], None
+    for line, rep in zip(case["lines"], replies):
+        op = line.split()[0]
+        if op == "g":
+            spec, smart = dec_g(line)
+            ctx = {"spec": spec, "smart": smart, "g": user_grammar(spec), "start": start_of(spec),
+                   "seqs": set(spec.get("seq", ())), "ok": rep.startswith("ok"), "amb": rep}
+            if ctx["ok"]:
+                slots.append(ctx)
+                cur = len(slots) - 1
+            else:
+                cur = None
+            yield op, line, rep, ctx
+        elif op == "use":
+            k = int(line.split()[1])
+            cur = k if k < len(slots) else None
+            yield op, line, rep, None
+        elif op == "reset":
+            slots, cur = [], None
+            yield op, line, rep, None
+        else:
+            yield op, line, rep, (slots[cur] if cur is not None else None)
+
+
+def thread_check(spec, smart, texts, rounds=40):
+    """two threads use ONE parser object at the same time; every call must give what the same call gives alone.
+    Returns an error text or None."""
+    import threading
+    parser, rep = build(spec, smart)
+    if parser is None:
+        return None
+    want = [parse_reply(parser, t) for t in texts]
+    bad, lock = [], threading.Lock()
+
+    def work(order):
+        lb = LineBudget(3000000)
+        sys.settrace(lb._global)
+        try:
+            for _ in range(rounds):
+                for i in order:
+                    try:
+                        got = "tree " + show_tree(parser.parse(texts[i], do_cleanup=False))
+                    except BudgetExceeded:
+                        got = "err BudgetExceeded"
+                    except Exception as e:
+                        got = "err " + type(e).__name__
+                    if got != want[i]:
+                        with lock:
+                            bad.append((texts[i], want[i], got))
+                        return
+        finally:
+            sys.settrace(None)
+    old = sys.getswitchinterval()
+    sys.setswitchinterval(1e-6)
+    try:
+        idx = list(range(len(texts)))
+        ths = [threading.Thread(target=work, args=(idx,)), threading.Thread(target=work, args=(idx[::-1],))]
+        for t in ths:
+            t.start()
+        for t in ths:
+            t.join()
+    finally:
+        sys.setswitchinterval(old)
+    if bad:
+        t, w, g_ = bad[0]
+        return "two threads on one parser object: parse(%r) gives %s, alone it gives %s" % (t, g_[:60], w[:60])
+    return None
+
+
 # ------------------------------------------------------------------ tags shared by the three checks
 
 def tags(case, replies):
@@ -1126,6 +1540,9 @@ def tags(case, replies):
         yield "start:" + m["start"]
     if "malformed" in m:
         yield "malformed:" + m["malformed"]
+    for k in ("emptykey", "parsers", "skipkind", "threads"):
+        if k in m:
+            yield "%s:%s" % (k, m[k])
     for line, rep in zip(case["lines"], replies):
         op = line.split()[0]
         if op == "g":
@@ -1134,16 +1551,18 @@ def tags(case, replies):
             yield "parse:" + (rep.split()[0] if not rep.startswith("err") else rep.replace(" ", ":"))
         elif op == "ps":
             yield "parse-from:" + (rep.split()[0] if not rep.startswith("err") else rep.replace(" ", ":"))
+        elif op == "pl":
+            yield "parse-lines:" + (rep.split()[0] if not rep.startswith("err") else rep.replace(" ", ":"))
 
 
 def nontrivial(case, replies):
-    trees = sum(1 for l, r in zip(case["lines"], replies) if l.startswith("p ") and r.startswith("tree"))
-    errs = sum(1 for l, r in zip(case["lines"], replies) if l.startswith("p ") and r.startswith("err"))
+    trees = sum(1 for l, r in zip(case["lines"], replies) if l[:2] in ("p ", "pl") and r.startswith("tree"))
+    errs = sum(1 for l, r in zip(case["lines"], replies) if l[:2] in ("p ", "pl") and r.startswith("err"))
     return trees > 0 and errs > 0
 
 
 def observable(i, line):
-    return line.split()[0] in ("g", "p", "ps", "amb", "reset")
+    return line.split()[0] in ("g", "p", "pl", "ps", "amb", "use", "reset")
 
 
 C03_WITNESS = {"tok": [["SPACE", r"\s+"], ["X", "x"], ["Y", "y"], ["Z", "z"]], "syn": {}, "kw": [], "skip": None,
